@@ -263,7 +263,7 @@ PROPS = {
                 note="One-directional, as the statement is: trigger present => flag set. Untouched messages are counted as controls, never raised. 'Unparseable Content-Length' means no usable number (empty, non-numeric, overflow); libhtp's lenient acceptance of junk around digits is not litigated.",
                 technique="deterministic simulation: seeded actors apply triggers, wire schedules vary segmentation; spec-level predicate => flag on the reported transaction",
                 design_ref="DESIGN.md section 7 C11",
-                rule="21 triggers (empty / blank Host value alone and with an absolute target, TE+CL both orders, two CL same/different, folded CL, chunked on HTTP/1.0, CL empty/non-numeric/overflow, unsupported TE, target host/port differs from Host, Host missing on 1.1, invalid Host header (bad char, empty label, bad port, unclosed IPv6), invalid target host/port) x random header order/casing/OWS among 0-70 other headers x 1-3 exchanges x all segmentation strategies. Non-trivial/distinct as for C01."),
+                rule="23 triggers (chunked as the last element of a Transfer-Encoding list or of two Transfer-Encoding lines next to a Content-Length, empty / blank Host value alone and with an absolute target, TE+CL both orders, two CL same/different, folded CL, chunked on HTTP/1.0, CL empty/non-numeric/overflow, unsupported TE, target host/port differs from Host, Host missing on 1.1, invalid Host header (bad char, empty label, bad port, unclosed IPv6), invalid target host/port) x random header order/casing/OWS among 0-70 other headers x 1-3 exchanges x all segmentation strategies. Non-trivial/distinct as for C01."),
     "C16": dict(reach=['probe.req.connect.suspend', 'probe.tx.yield_data_other', 'c16.tunnel_expected', 'c16.http_resumes', 'rc.req.4', 'rc.res.4', 'data_other.req', 'data_other.res'], flavor="san", level="exploration",
                 claim="Seeded search over CONNECT / upgrade exchanges x response status x what follows x legal interleavings x segmentations; checks suspension of the request side, tunnel mode (TUNNEL for every later call, no callbacks, no new transactions) and exact resumption of HTTP parsing after a refusal or when the tunnel carries plain HTTP.",
                 note="Tunnel payload is modelled as client-speaks-first (the server's tunnel bytes are offered after the client's); TLS-looking payload contains a NUL early, as real handshakes do.",
